@@ -30,6 +30,9 @@ def check(prog: Program, run: Run) -> None:
     run.rule("C03.R5", "the encoder accepts every value the decoder can produce for the same "
              "encoding (two's-complement minimum)", floor=1)
     run.rule("C03.G5", "absent values are tested by identity, not truthiness", floor=2)
+    run.rule("C03.R6", "the atomic writer lays out value bits, padding, byte order and used-bit "
+             "mask by the reader's formulas: no bit of an accepted value is dropped (shared with "
+             "C02.R2)", floor=6)
     compu.linear_forms(prog, run, "C03.R2", "C03.R1")
     compu.validity_vs_conversion(prog, run, "C03.R2")
     compu.tabintp_forms(prog, run, "C03.R2", "C03.R2")
@@ -39,5 +42,7 @@ def check(prog: Program, run: Run) -> None:
     compu.dop_gates(prog, run, "C03.R4")
     from . import c04
     c04.twoc_minimum_is_exact(prog, run, "C03.R5")
+    from . import c02
+    common.run_as(run, "C02.R2", "C03.R6", lambda r: c02._siblings(prog, r))
     common.g5_absence_by_truthiness(prog, run, "C03.G5", [
         "odxtools/compumethods/*.py", "odxtools/dataobjectproperty.py", "odxtools/dtcdop.py"])
